@@ -8,7 +8,8 @@
   Props/C16SeqPath.lean proves one hop, for the data projection. Here:
   * `hop_stream_identity` — one hop, the WHOLE stream (data, watermarks, FlushAndRestart, Terminate),
     every batch mode, every clock behaviour, every placement of receive timeouts;
-  * `liftStage` (Lemmas/SeqChain.lean) — an operator chain (map / filter / flat_map / inspect and
+  * `liftStage` (Model/Stateless.lean, tied to the REAL operators by the correspondence component
+    `stateless`; lemmas in Lemmas/SeqChain.lean) — an operator chain (map / filter / flat_map / inspect and
     compositions) as a per-element transducer; it composes and preserves the link contract;
   * `seq_chain_identity` / `seq_chain_iterator` — pipelines of `k + 1` single-replica blocks for
     every `k` (type `Chain`, Lemmas/SeqChain.lean: a stage per block, a `Hop` = batch mode + clock
@@ -24,7 +25,7 @@
 -/
 import NoirVerif.Lemmas.SeqChain
 namespace Noir.SeqChain
-open Noir Noir.StartSpec Noir.SeqPath
+open Noir Noir.StartSpec Noir.SeqPath Noir.Stateless
 
 variable {α β γ : Type}
 
